@@ -5,7 +5,7 @@
    (Gen/C16_RW.v); parsers, serialisers, getParser and the file system are arbitrary functions. *)
 From Coq Require Import ZArith List Bool String.
 From DS Require Import Model.C16_ReadWriteTxn Gen.C16_RW Model.C16_Methods.
-From DS Require Import Proofs.C16_Atomic Proofs.C16_Main Proofs.C16_NoneResult.
+From DS Require Import Proofs.C16_Atomic Proofs.C16_Main Proofs.C16_AnyFailure Proofs.C16_NoneResult.
 Open Scope string_scope.
 
 (* If the parse call of the entry point raises (or getParser does: then the premise holds vacuously),
@@ -17,13 +17,15 @@ Theorem C16_read_failure_atomic : forall E G c en o fs n,
 Proof. exact read_failure_atomic. Qed.
 Print Assumptions C16_read_failure_atomic.
 
-(* Structure.read / readStr: whatever statement fails in the model (getParser, a missing file, the
-   parse, ...), the target is untouched.  Partial: not shown for the PDFFitStructure overrides, whose
-   statements after the base call are covered by the theorem above and by the finder only. *)
-Theorem C16_read_any_failure_atomic_partial : forall E G en o fs n x fr',
-  run_read E G CStructure en (frame_of o fs n) = Failed x fr' -> f_self fr' = o /\ f_fs fr' = fs.
-Proof. exact read_any_failure_atomic. Qed.
-Print Assumptions C16_read_any_failure_atomic_partial.
+(* Whatever statement of the read fails in the model (getParser, a missing file, the parse, a statement
+   after it), the target object and the files are untouched - both classes, both entry points.  The premise
+   says that a pdffit entry of a parse result, when present, is a dictionary (what P_pdffit / P_discus build). *)
+Theorem C16_read_any_failure_atomic : forall E G c en o fs n x fr',
+  (forall p ps sg, e_getparser E (g_format G) = Ok p ->
+     parse_of G en fs p = {| po_result := Ok (Some ps); po_sg := sg |} -> pdffit_entry_ok ps = true) ->
+  run_read E G c en (frame_of o fs n) = Failed x fr' -> f_self fr' = o /\ f_fs fr' = fs.
+Proof. exact read_any_failure_atomic_all. Qed.
+Print Assumptions C16_read_any_failure_atomic.
 
 (* If producing the text raises, write fails and no file has changed (nor has the structure). *)
 Theorem C16_write_failure_keeps_file : forall E G o fs n,
